@@ -39,3 +39,21 @@ package keeper
 //@   ensures authenticated: err == nil ==> found && auth == nil
 //@   ensures unauthenticated_rejected: !found || auth != nil ==> err != nil && world(ctx) == old(world(ctx))
 //@   ensures all_or_nothing: err != nil ==> world(ctx) == old(world(ctx))
+
+// ---- host side of the channel handshake (C38): an existing account is reused, never re-created
+
+//@ contract (*Keeper).createInterchainAccount
+//@   modifies world(ctx), calls icaCreateAccount
+//@   ensures calls("icaCreateAccount") == old(calls("icaCreateAccount")) + 1
+
+//@ contract (*Keeper).OnChanOpenTry
+//@   let activeID = nth(k.GetActiveChannelID(ctx, connectionHops[0], counterparty.PortId), 0)
+//@   let hasActive = nth(k.GetActiveChannelID(ctx, connectionHops[0], counterparty.PortId), 1)
+//@   let ch = icaChannelOf(world(ctx), portID, activeID)
+//@   let hasAccount = nth(k.GetInterchainAccountAddress(ctx, connectionHops[0], counterparty.PortId), 1)
+//@   let n0 = calls("icaCreateAccount")
+//@   modifies world(ctx), calls icaCreateAccount
+//@   ensures host_port: err == nil ==> portID == icatypes.HostPortID
+//@   ensures reopen_only_after_closed: err == nil && hasActive ==> ch.State == channeltypes.CLOSED
+//@   ensures existing_account_reused: hasAccount ==> calls("icaCreateAccount") == n0
+//@   ensures at_most_one_account_created: calls("icaCreateAccount") == n0 || calls("icaCreateAccount") == n0 + 1
